@@ -6,13 +6,13 @@ N="${1:-3000}"
 BAD=0
 for P in C01 C02 C03 C04 C05 C06 C07 C08 C09 C10 C11 C12 C13 C14 C15 C16 C17; do
   H=""
-  for J in 16 3 16 7; do
+  for J in ${WORKERS:-16 3 16 7}; do
     D=/tmp/det-$$-$J; mkdir -p $D
     VERIF_RUNS=$N VERIF_JOBS=$J VERIF_EVIDENCE_DIR=$D VERIF_REPLAY_DIR=$D ./sim/target/release/sdmmc-sim check $P quick >/dev/null 2>&1
     X=$(python3 -c "import json;print(json.load(open('$D/$P.json'))['coverage']['batch_event_log_hash'])")
     H="$H $X"; rm -rf $D
   done
   U=$(echo $H | tr ' ' '\n' | sort -u | wc -l)
-  if [ "$U" != "1" ]; then echo "NON-DETERMINISTIC $P: $H"; BAD=1; else echo "ok $P $(echo $H | cut -d' ' -f1) (4 processes, workers 16/3/16/7, $N runs each)"; fi
+  if [ "$U" != "1" ]; then echo "NON-DETERMINISTIC $P: $H"; BAD=1; else echo "ok $P $(echo $H | cut -d' ' -f1) (separate processes with ${WORKERS:-16 3 16 7} workers, $N runs each)"; fi
 done
 exit $BAD
